@@ -9,15 +9,15 @@ def F := rfcX25519
 
 /-- RFC 7748 §5.2 iteration: `(k, u) := (X25519(k, u), k)`, `n` times; stops at the first error -/
 def iter : Nat → Nat → Bytes → Bytes → String
-  | 0, _, k, _ => "ok:" ++ toHex k
+  | 0, _, k, _ => "ok:" ++ toHex k ++ " mut=-"
   | n+1, i, k, u =>
     match X25519 F k u with
-    | .err => s!"err@{i}"
+    | .err => s!"err@{i} mut=-"
     | .ok r => iter n (i+1) r k
 
 /-- ops:
     `x s=<hex> p=<hex> d=<hex32> alias=0|1|2`  → `x=<ok:hex|err> sm=<hex|->`
-    `base s=<hex32> d=<hex32>`                  → `sbm=<hex> x=<…>`
+    `base s=<hex32> d=<hex32> alias=0|1`        → `sbm=<hex> x=<…>` (alias 1: dst is the scalar array)
     `dh a=<hex32> b=<hex32>`                    → `pa= pb= k1= k2= agree=`
     `iter k=<hex32> u=<hex32> n=<N>`            → `ok:<hex>` | `err@i` -/
 def handle (line : String) : String :=
@@ -33,16 +33,16 @@ def handle (line : String) : String :=
           let d0 := if al = 1 then s else if al = 2 then pt else d
           toHex (ScalarMult F d0 s pt)
         else "-"
-      s!"x={showRes xr} sm={sm}"
+      s!"x={showRes xr} sm={sm} mut=-"
     | _, _, _, _ => "bad-op"
   | "base" =>
-    match o.hex? "s", o.hex? "d" with
-    | some s, some d =>
-      if d.length ≠ 32 then "bad-op" else
-      match ScalarBaseMult F d s with
+    match o.hex? "s", o.hex? "d", o.nat? "alias" with
+    | some s, some d, some al =>
+      if d.length ≠ 32 || al > 1 then "bad-op" else
+      match ScalarBaseMult F (if al = 1 then s else d) s with
       | .panic => "panic"
-      | .dst r => s!"sbm={toHex r} x={showRes (X25519 F s basePoint)}"
-    | _, _ => "bad-op"
+      | .dst r => s!"sbm={toHex r} x={showRes (X25519 F s basePoint)} mut=-"
+    | _, _, _ => "bad-op"
   | "dh" =>
     match o.hex? "a", o.hex? "b" with
     | some a, some b =>
@@ -50,7 +50,7 @@ def handle (line : String) : String :=
       | .ok pa, .ok pb =>
         let k1 := X25519 F a pb
         let k2 := X25519 F b pa
-        s!"pa={toHex pa} pb={toHex pb} k1={showRes k1} k2={showRes k2} agree={if k1 == k2 then 1 else 0}"
+        s!"pa={toHex pa} pb={toHex pb} k1={showRes k1} k2={showRes k2} agree={if k1 == k2 then 1 else 0} mut=-"
       | _, _ => "err"
     | _, _ => "bad-op"
   | "iter" =>
